@@ -210,6 +210,7 @@ fn knobs_for(prop: &str, g: &mut G) -> (&'static str, Knobs) {
             k.h_steps = 800;
             k.h_ask_peer = 40;
             k.h_tell_peer = 10;
+            k.h_join = 12;
             k.w_askt += 6;
             k.w_cancel += 4;
         }
